@@ -128,7 +128,7 @@ def _bt(sig, name):
 # variants with restricted input menus: (core, {predicate on the input signal: menu})
 VARIANTS = {
     # period = 0 makes `counter < period - 1` compare with -1 in the simulator (gap h1); explore the rest of PWM without it
-    "PWM.period_nz": ("PWM", [(lambda s: _bt(s, "_period"), [2, 3, 5, 0xFFFFFFFF, 1])]),
+    "PWM.period_nz": ("PWM", [(lambda s: _bt(s, "period"), [2, 3, 5, 0xFFFFFFFF, 1])]),
 }
 
 
